@@ -29,7 +29,7 @@ R1 == {1}
 R3 == {1, 2, 3}
 B1 == {<<3, -2>>}
 B2 == {<<3, -2>>, <<0, 1>>}
-FamsAll == {"dy", "int", "real"}
+FamsAll == {"dy", "int", "real", "reg"}
 DT0 == {}
 DT2 == {"f4", "c16"}
 DS1 == {1}
@@ -70,6 +70,36 @@ ModelFails(c0, us) ==
           ELSE IF m.bare THEN ExpDims(s.deg, us) # <<0, 0>>
           ELSE ExpDims(m.deg, us) # ExpDims(s.deg, us)}
 
+\* ---- registries: the SAME symbol with different values in different UnitRegistry objects
+\* registry 1: ql = 2^3 m, qt = 2^-2 s; registry 2: ql = 2^5 m, qt = 2^1 s (custom dyadic registries);
+\* registry 3: the default registry's ft (0.3048 m) / min (60 s); registry 4: a registry where ft = 2^-2 m, min = 2^6 s.
+\* 0 = the ordinary model units (every symbol unique).  In a registry case the base run draws operand i's unit from
+\* registry rg[i] under the shared spelling; the other run holds the same physical operands in ONE registry's units.
+QK(j, d) == IF j = 1 THEN (IF d = "L" THEN 3 ELSE -2) ELSE (IF d = "L" THEN 5 ELSE 1)
+RegAssign(n, a, b) == {rg \in [1..n -> {a, b}] : \E i \in 1..n : rg[i] = b}
+RegMixed(n, a, b) == {rg \in RegAssign(n, a, b) : \E i \in 1..n : rg[i] = a}
+
+CaseU(row, sh, da, u, v, rg, p, rd, r, dt, real, ds) ==
+  LET sig == ResSig(row.sig, sh)
+      io == IF row.io.chk = "na" THEN row.io ELSE ResSig(row.io, sh)
+      c0 == [f |-> row.f, t |-> row.t, sh |-> sh, n |-> row.n, da |-> da, u |-> u, v |-> v, rg |-> rg, pat |-> p, rd |-> rd, r |-> r,
+             dt |-> dt, real |-> real, ds |-> ds, cls |-> row.cls, hcls |-> HCls(row.f), sig |-> sig, io |-> io,
+             exact |-> row.ex, nocov |-> "nocov" \in row.fl, novals |-> "novals" \in row.fl, unord |-> "unordered" \in row.fl, od |-> PrimaryDeg(sig)] IN
+  c0 @@ [tb |-> ImplRun(c0, u), tv |-> ImplRun(c0, v), mp |-> ModelFails(c0, u) \cup ModelFails(c0, v)]
+NoReg(da) == [i \in DOMAIN da |-> 0]
+\* dyadic registries 1 / 2 against everything held in registry 1's scales under unique symbols
+RegCase(row, sh, da, rg) ==
+  CaseU(row, sh, da, [i \in DOMAIN da |-> <<da[i], QK(rg[i], da[i])>>], [i \in DOMAIN da |-> <<da[i], QK(1, da[i])>>],
+        [i \in DOMAIN da |-> rg[i]], "reg", "L", 0, "f8", FALSE, 1)
+\* default registry (3) and a registry that redefines its symbols (4) against everything in m / s (ordinary units: tolerance;
+\* the second component of a base unit is only a tag that keeps units of different registries unequal)
+RegDCase(row, sh, da, rg) ==
+  CaseU(row, sh, da, [i \in DOMAIN da |-> <<da[i], rg[i]>>], [i \in DOMAIN da |-> <<da[i], 0>>],
+        [i \in DOMAIN da |-> rg[i]], "reg", "L", 0, "f8", TRUE, 1)
+\* merging and comparing functions: several operands of one dimension whose units must be reconciled
+RegRow(row) == row.n >= 2 /\ row.cls \in {"same", "bare"}
+PlainDa(da) == \A i \in DOMAIN da : da[i] \in {"L", "T"}
+
 Case(row, sh, da, p, rd, r, dt, real, kl, kt, ds) ==
   LET u == BaseUnits(da, kl, kt)
       v == VarUnits(da, u, p, rd, r)
@@ -77,12 +107,18 @@ Case(row, sh, da, p, rd, r, dt, real, kl, kt, ds) ==
       io == IF row.io.chk = "na" THEN row.io ELSE ResSig(row.io, sh)
       c0 == [f |-> row.f, t |-> row.t, sh |-> sh, n |-> row.n, da |-> da, u |-> u, v |-> v, pat |-> p, rd |-> rd, r |-> r,
              dt |-> dt, real |-> real, ds |-> ds, cls |-> row.cls, hcls |-> HCls(row.f), sig |-> sig, io |-> io,
+             rg |-> NoReg(da),
              exact |-> row.ex, nocov |-> "nocov" \in row.fl, novals |-> "novals" \in row.fl, unord |-> "unordered" \in row.fl, od |-> PrimaryDeg(sig)] IN
   [c0 EXCEPT !.od = PrimaryDeg(sig)] @@ [tb |-> ImplRun(c0, u), tv |-> ImplRun(c0, v), mp |-> ModelFails(c0, u) \cup ModelFails(c0, v)]
 
+\* every assignment with two different dimensions also runs with the second dimension replaced by the reciprocal of
+\* the first (L, 1/L) and the first by the reciprocal of the second (1/T, T): products and quotients whose unit is
+\* dimensionless with a scale, partial cancellation in three-operand cases
+DasOf(row) == row.das \cup {Recip(da) : da \in {x \in row.das : HasBoth(x)}} \cup {RecipT(da) : da \in {x \in row.das : HasBoth(x)}}
+
 Next ==
   /\ c = <<>>
-  /\ \E row \in Active : \E sh \in row.shs, da \in row.das : \E p \in Patterns(da), rd \in {"L", "T"} :
+  /\ \E row \in Active : \E sh \in row.shs, da \in DasOf(row) : \E p \in Patterns(da), rd \in {"L", "T", "iL", "iT"} :
        /\ Len(da) = row.n
        /\ PatOK(da, p)
        /\ IF p = "all" THEN rd \in DimsIn(da) ELSE rd = da[PatIdx(p)]
@@ -94,6 +130,9 @@ Next ==
              /\ \E r \in Factors, dt \in DTypes : c' = Case(row, sh, da, p, rd, r, dt, FALSE, 3, -2, 1)
           \/ /\ "real" \in Fams
              /\ \E r \in RealIdx, ds \in DataSets : c' = Case(row, sh, da, p, rd, r, "f8", TRUE, 0, 0, ds)
+          \/ /\ "reg" \in Fams /\ RegRow(row) /\ PlainDa(da) /\ p = "all" /\ rd = da[1]
+             /\ \/ \E rg \in RegAssign(row.n, 1, 2) : c' = RegCase(row, sh, da, rg)
+                \/ \E rg \in RegMixed(row.n, 4, 3) : c' = RegDCase(row, sh, da, rg)
 Spec == Init /\ [][Next]_vars
 
 Export == c # <<>> => PrintT(ToJson(c))
@@ -109,6 +148,7 @@ WellFormed == c # <<>> =>
 ReexpressionProper == c # <<>> =>
   /\ \E i \in DOMAIN c.u : c.u[i] # c.v[i]
   /\ \A i \in DOMAIN c.u : c.u[i][1] = c.v[i][1]
+  /\ (c.pat = "reg" <=> \E i \in DOMAIN c.rg : c.rg[i] # 0)
 \* covariance of the signature itself: re-expression never changes the expected exponent vector
 SigCovariant == c # <<>> => \A j \in DOMAIN c.sig.o : ExpDims(c.sig.o[j].deg, c.u) = ExpDims(c.sig.o[j].deg, c.v)
 =============================================================================
